@@ -13,4 +13,5 @@ CONSTANTS
   PhaseOn = {1, 2, 3, 4, 5}
   AllowCtrlC = FALSE
   MaxNFE = 1
+  AllowInvalid = FALSE
 CHECK_DEADLOCK FALSE
